@@ -54,6 +54,15 @@ def gen_cases(tier, seed):
                     cases.append({"id": cid, "sig": [wrs, was, waors, layout, enc, "valid", "", "kit", mdkeys], "opts": [wrs, was, waors], "layout": layout, "enc": enc,
                                   "corr": "valid", "maker": "kit", "how": "", "alg": "rsa-sha256", "mdkeys": mdkeys,
                                   "identity": gen.identity(random.Random("%s/%s" % (seed, cid)))})
+    # an SP that cannot open the EncryptedAssertion (no encryption key pair of its own, or another one than the IdP encrypted to): there is
+    # nothing it could have checked, so there is nothing to accept, whatever the options say
+    for spenc in ("no-keypair", "other-keypair"):
+        for wrs, was, waors in itertools.product((0, 1), repeat=3):
+            for layout in ("none", "R", "A", "RA"):
+                cid = "o%d%d%d-%s-enc-valid-kit-sp-cannot-open:%s" % (wrs, was, waors, layout, spenc)
+                cases.append({"id": cid, "sig": [wrs, was, waors, layout, 1, "valid", "", "kit", "cannot-open:" + spenc], "opts": [wrs, was, waors], "layout": layout,
+                              "enc": 1, "corr": "valid", "maker": "kit", "how": "", "alg": "rsa-sha256", "spenc": spenc,
+                              "identity": gen.identity(random.Random("%s/%s" % (seed, cid)))})
     # the class of the configuration object the client is built from (SPConfig, plain Config, IdPConfig for an entity that is both)
     for cc in ("Config", "IdPConfig"):
         for wrs, was, waors in itertools.product((0, 1), repeat=3):
@@ -137,18 +146,18 @@ def setup_worker(ctx):
     ctx.fedcache = fed.Cache()
 
 
-def _sp(ctx, opts, mdkeys=None, config_class=None):
+def _sp(ctx, opts, mdkeys=None, config_class=None, spenc=None):
     def build():
         from saml2_tophat.config import Config, IdPConfig
         cls = {"Config": Config, "IdPConfig": IdPConfig}.get(config_class)
         spc = fed.sp_conf(want_response_signed=bool(opts[0]), want_assertions_signed=bool(opts[1]),
-                          want_assertions_or_response_signed=bool(opts[2]))
+                          want_assertions_or_response_signed=bool(opts[2]), enc_keys={None: (2,), "no-keypair": (), "other-keypair": (5,)}[spenc])
         idc = fed.idp_conf()
         idpmd = fed.metadata_of(idc)
         if mdkeys is not None:
             idpmd = mdgen.entity({"eid": fed.IDP_EID, "idp": {"keys": MDKEYS[mdkeys], "sso": [(B_REDIR, fed.SSO_REDIRECT)]}})
         return fed.make_sp(spc, [idpmd], config_class=cls), fed.make_idp(idc, [fed.metadata_of(spc)])
-    return ctx.fedcache.get("pair", [opts, mdkeys, config_class], build)
+    return ctx.fedcache.get("pair", [opts, mdkeys, config_class, spenc], build)
 
 
 def corrupt_signature(text, owner_ns, owner_local, how):
@@ -216,13 +225,15 @@ def expected_accept(case):
     ok = (not wrs or R) and (not was or A) and (not waors or R or A)
     if case.get("mdkeys") and (R or A):
         return False          # no key to verify the present signature with
+    if case.get("spenc"):
+        return False          # no assertion the SP could have looked at
     return ok and case["corr"] == "valid"
 
 
 def run_case(case, ctx):
     if case.get("kind") == "omitted":
         return run_omitted(case, ctx)
-    sp, idp = _sp(ctx, case["opts"], case.get("mdkeys"), case.get("config_class"))
+    sp, idp = _sp(ctx, case["opts"], case.get("mdkeys"), case.get("config_class"), case.get("spenc"))
     xml, rid, aid = build_message(case, idp)
     ctx.mark()
     resp, exc = fed.deliver(sp, xml, dict(OUT))
@@ -238,6 +249,8 @@ def run_case(case, ctx):
         key = "false-accept" if accepted else "false-reject"
         if accepted and case.get("mdkeys") and case["layout"] != "none":
             key = "signature-accepted-without-a-key-to-verify-it"
+        elif accepted and case.get("spenc"):
+            key = "accepted-although-no-assertion-could-be-opened"
         elif accepted and case["corr"] != "valid":
             key = "invalid-signature-ignored"
         elif accepted:
